@@ -10,3 +10,14 @@ From Mant Require Import Gen.Shapes Model.ShapesExpected Gen.Wraps Model.WrapsEx
 Theorem C10_state_space : shapes_C10 = expected_C10.
 Proof. reflexivity. Qed.
 Print Assumptions C10_state_space.
+
+(* The models use unbounded numbers and write every wrap explicitly.  For the packages of go2coq/hard_wraps.txt
+   (where the property is about arithmetic at sizes no sampler reaches: the MD4 bit counter) the places where the
+   source computes in a fixed-width integer type or narrows an integer, and where the bounds that follow from
+   constants, operand widths, masks and shifts do not keep the exact result inside the type, are re-read on every
+   run (go2coq wraps).  Every such site of the current source must be one the models were written against (with
+   multiplicity): a new site is arithmetic the model does not wrap.  (In all other packages a changed set of
+   wrap sites is handled by stage T of the check.) *)
+Theorem C10_wrap_sites : sub_multiset wraps_C10 expected_wraps_C10 = true.
+Proof. vm_compute. reflexivity. Qed.
+Print Assumptions C10_wrap_sites.
